@@ -252,6 +252,38 @@ Definition finalize (seal : sealer) (open : opener) (nonce : bytes) (p : packer)
       end
   end.
 
+(* ---------- Add / Finalize on a writer that can fail: the packer becomes broken ---------- *)
+(* outcome of one Write call: everything, n bytes without error (short write), n bytes and an error *)
+Inductive wres := WFull | WShort (n : Z) | WErr (n : Z).
+Definition write_out (w : wres) (d : bytes) : bytes * bool :=
+  match w with
+  | WFull => (d, true)
+  | WShort n => if n >=? len d then (d, true) else (firstn (Z.to_nat n) d, false)
+  | WErr n => (firstn (Z.to_nat n) d, false)
+  end.
+(* pf_err: p.err != nil; pf_nw: number of Write calls so far (index into the script) *)
+Record packerF := mkPF { pf_p : packer; pf_err : bool; pf_nw : nat }.
+Definition script := list wres.
+Definition addF (sc : script) (pf : packerF) (a : add_in) : packerF * bool :=
+  if pf_err pf then (pf, false)                                   (* ErrBroken, nothing is written *)
+  else
+    let '(w, full) := write_out (nth (pf_nw pf) sc WFull) (a_data a) in
+    if full then (mkPF (fst (padd (pf_p pf) a)) false (S (pf_nw pf)), true)
+    else (mkPF (mkPacker (p_blobs (pf_p pf)) (p_bytes (pf_p pf)) (p_data (pf_p pf) ++ w)) true (S (pf_nw pf)), false).
+Fixpoint runF (sc : script) (pf : packerF) (l : list add_in) : packerF * list bool :=
+  match l with
+  | [] => (pf, [])
+  | a :: r => let '(pf', ok) := addF sc pf a in let '(pf'', oks) := runF sc pf' r in (pf'', ok :: oks)
+  end.
+Definition finalizeF (seal : sealer) (open : opener) (nonce : bytes) (sc : script) (pf : packerF) : res bytes :=
+  if pf_err pf then Err EOther
+  else match finalize seal open nonce (pf_p pf) with
+       | Ok f =>
+           let enc := skipn (length (p_data (pf_p pf))) f in
+           if snd (write_out (nth (pf_nw pf) sc WFull) enc) then Ok f else Err EOther
+       | x => x
+       end.
+
 (* ---------- specification-side definitions ---------- *)
 
 (* what List has to return for blobs written in this order: offsets are the running sum *)
@@ -332,7 +364,12 @@ Inductive case :=
      compressed ones in total.  over = false: added until HeaderFull() (stop = Count() then);
      over = true: HeaderFull is ignored and stop = nplain+ncomp.  fin = Finalize result,
      listed/hs = len(List) and hdrSize (0 0 when not listed) *)
-| CF (over : bool) (nplain ncomp stop : Z) (fin : fres) (listed hs : Z).
+| CF (over : bool) (nplain ncomp stop : Z) (fin : fres) (listed hs : Z)
+  (* CW seq sc items fin file t obs: Adds on one Packer whose writer follows the script sc (seq = true: one after
+     the other, item order = call order) or from several goroutines at once (seq = false, no faults); every item
+     = blob fields, the data given to Add, and whether Add returned without error; then Finalize, then List *)
+| CW (seq : bool) (sc : script) (items : list (blob * bytes * bool)) (fin : fres) (file : bytes) (t : tab)
+     (obs : res (list blob * Z)).
 
 Definition is_panic {A} (r : res A) : bool := match r with Panic => true | _ => false end.
 
@@ -390,9 +427,62 @@ Definition oracle_code (c : case) : nat :=
              && (hs <=? max_header_size) && (stop =? max_header_entries)
           then 0%nat else 6%nat
       end
+  | CW _ _ _ _ _ _ _ => 0%nat
   end.
 
-Definition check_C06 (c : case) : bool := Nat.eqb (oracle_code c) 0.
+Definition it_blob (x : blob * bytes * bool) : blob := fst (fst x).
+Definition it_data (x : blob * bytes * bool) : bytes := snd (fst x).
+Definition it_ok (x : blob * bytes * bool) : bool := snd x.
+Fixpoint find_item (id : bytes) (l : list (blob * bytes * bool)) : option (blob * bytes * bool) :=
+  match l with [] => None | x :: r => if bytes_eqb (b_id (it_blob x)) id then Some x else find_item id r end.
+Fixpoint count_bid (id : bytes) (l : list blob) : nat :=
+  match l with [] => O | b :: r => ((if bytes_eqb (b_id b) id then 1 else 0) + count_bid id r)%nat end.
+(* a failed Add followed by a successful one *)
+Fixpoint ok_after_fail (failed : bool) (l : list bool) : bool :=
+  match l with [] => false | ok :: r => (failed && ok) || ok_after_fail (failed || negb ok) r end.
+Definition faultless (sc : script) : bool := forallb (fun w => match w with WFull => true | _ => false end) sc.
+Definition btype_eqb (a b : btype) : bool :=
+  match a, b with BData, BData | BTree, BTree | BInvalid, BInvalid => true | _, _ => false end.
+
+(* what must hold of the listing of a finalized pack: exactly the successfully added blobs, running offsets, the
+   bytes at each offset are the data given to Add, header + data = file *)
+Definition listing_ok (seq : bool) (items : list (blob * bytes * bool)) (file : bytes) (es : list blob) (hs : Z) : bool :=
+  (hs + sum_len es =? len file)
+  && list_eqb blob_eqb (with_offsets es 0) es
+  && Nat.eqb (length es) (length (filter it_ok items))
+  && forallb (fun e =>
+       Nat.eqb (count_bid (b_id e) es) 1 &&
+       match find_item (b_id e) items with
+       | Some it => it_ok it && (b_len e =? len (it_data it)) && (b_ulen e =? b_ulen (it_blob it))
+                    && btype_eqb (b_type e) (b_type (it_blob it))
+                    && match sub file (b_off e) (b_off e + b_len e) with Some d => bytes_eqb d (it_data it) | None => false end
+       | None => false
+       end) es
+  && (negb seq || list_eqb bytes_eqb (map b_id es) (map (fun x => b_id (it_blob x)) (filter it_ok items))).
+
+(* CW codes: 2 panic; 7 Finalize succeeded but the listing / offsets / contents / sizes are not those of the
+   successfully added blobs; 8 a broken packer (failed Add) accepted a later Add or Finalize; 9 failure
+   without any writer fault *)
+Definition cw_code (seq : bool) (sc : script) (items : list (blob * bytes * bool)) (fin : fres) (file : bytes)
+                   (obs : res (list blob * Z)) : nat :=
+  let oks := map it_ok items in
+  if is_panic obs || fres_eqb fin FPanic then 2%nat
+  else if seq && (ok_after_fail false oks || (negb (forallb (fun b => b) oks) && fres_eqb fin FOk)) then 8%nat
+  else if faultless sc && negb (forallb (fun b => b) oks && fres_eqb fin FOk) then 9%nat
+  else if fres_eqb fin FOk then
+    match obs with
+    | Ok (es, hs) => if listing_ok seq items file es hs then 0%nat else 7%nat
+    | _ => 7%nat
+    end
+  else 0%nat.
+
+Definition oracle_code_all (c : case) : nat :=
+  match c with
+  | CW seq sc items fin file t obs => cw_code seq sc items fin file obs
+  | _ => oracle_code c
+  end.
+
+Definition check_C06 (c : case) : bool := Nat.eqb (oracle_code_all c) 0.
 
 Definition model_agrees (c : case) : bool :=
   match c with
@@ -401,11 +491,26 @@ Definition model_agrees (c : case) : bool :=
   | CF over nplain ncomp stop fin listed hs =>
       fres_eqb fin (cf_fin nplain ncomp)
       && (over || ((stop =? max_header_entries) && negb (header_full (stop - 1)) && header_full stop))
+  | CW _ _ _ _ _ _ _ => true
+  end.
+
+Definition model_agrees_all (c : case) : bool :=
+  match c with
+  | CW seq sc items fin file t obs =>
+      if seq then
+        let adds := map (fun x => mkAdd (b_type (it_blob x)) (b_id (it_blob x)) (it_data x) (b_ulen (it_blob x))) items in
+        let '(pf, oks) := runF sc (mkPF new_packer false 0) adds in
+        list_eqb Bool.eqb oks (map it_ok items)
+        && fres_eqb fin (if pf_err pf then FErr
+                         else if snd (write_out (nth (pf_nw pf) sc WFull) (repeat 0%N (Z.to_nat (hdr_len (p_blobs (pf_p pf)))))) then verify_model (p_blobs (pf_p pf)) else FErr)
+        && res_eqb obs (list_pack (tab_open t) file (len file))
+      else res_eqb obs (list_pack (tab_open t) file (len file))
+  | _ => model_agrees c
   end.
 
 Definition check_case (c : case) : nat :=
-  match oracle_code c with
-  | O => if model_agrees c then 0%nat else 1%nat
+  match oracle_code_all c with
+  | O => if model_agrees_all c then 0%nat else 1%nat
   | n => n
   end.
 
